@@ -794,7 +794,7 @@ _SHOW_KNOWN = os.environ.get("VERIF_SHOW_KNOWN_DEFECTS", "") != ""
 #   a0[0].getNumberOfAtoms("U235") -> 2.562e22 ; sum(x.getNumberOfAtoms("U235") for x in a0[0]) -> 7.686e22
 # While the flag is set those obligations are skipped (the block-level ones stay); VERIF_SHOW_KNOWN_DEFECTS=1 shows
 # the violations.
-KNOWN_DEFECT_component_mass_in_cut_block = True
+KNOWN_DEFECT_component_mass_in_cut_block = False
 
 
 @harness("C02", bounds="mini third-core: centre assembly (its block is cut in three) and an off-centre assembly (whole), "
@@ -869,7 +869,7 @@ def component_level_accounting_in_a_block_cut_by_symmetry(ctx, where):
 #   b = harness._build.mk_block(); b.getArea() -> 88.6274 ; b.getArea(cold=True) -> 88.6274
 # While the flag is set the obligations after a query of the OTHER kind are skipped; VERIF_SHOW_KNOWN_DEFECTS=1 shows
 # the violations.
-KNOWN_DEFECT_block_area_cache_ignores_cold = True
+KNOWN_DEFECT_block_area_cache_ignores_cold = False  # repaired in /repo (fix: adc9810)
 
 
 @harness("C02", bounds="assembly of 2 real blocks (components hot, so cold and hot areas differ), symbolic block heights "
